@@ -143,6 +143,18 @@ CLAIMED.update({
         note="Trusted: exact-tiling read simulator. The approximate NA10860 clause is not decided.",
         design="DESIGN.md section 4 (C07)",
     ),
+    "C01": dict(
+        category="exploration",
+        technique="deterministic simulation: planted error-free samples genotyped end to end while an adversarial solver returns another optimal vertex at every solve, with permuted delivery at the stream seam and varying hash seeds; oracle = planted genotype + variant-multiset conservation, precondition evaluated on the recorded structure stage",
+        text="Generated consistent databases (both strands, with / without pseudogene; SNP, MNP, insertion, deletion "
+             "alleles; extra copies, whole-gene deletion, left / right fusion) and planted haplotype multisets are turned "
+             "into exact-tiling reads (length 50-250, >= 20x per copy) and genotyped against a simulated two-copy "
+             "reference profile. The adversary makes 'every best solution' range over the optimal faces of all three "
+             "stages. Sampling of (database x multiset x read layout x solver choice).",
+        note="Trusted: the read simulator and the sequence-level variant conventions in aldysim/world.py (self-validated "
+             "against the loaded catalogue). Shipped genes are not simulated.",
+        design="DESIGN.md section 4 (C01)",
+    ),
 })
 
 NA = {
